@@ -251,7 +251,98 @@ const HAND_FENS: &[&str] = &[
     "8/r7/8/1q6/8/8/6k1/2K5 b - - 0 1",
 ];
 
+/// Few-piece positions with a pawn one step from promotion (under-promotion tactics) and
+/// bare minor-piece endings with a king near a corner (mates that exist against "insufficient" material).
+fn random_special(rng: &mut Rng) -> Option<Pos> {
+    let mut sq = [0u8; 64];
+    let att = rng.below(2) as u8;
+    let def = att ^ 1;
+    let corner_zone = |rng: &mut Rng| -> usize {
+        let c = *rng.pick(&[0usize, 7, 56, 63]);
+        let (r, f) = (c / 8, c % 8);
+        let dr = rng.below(2) as usize;
+        let df = rng.below(2) as usize;
+        let r2 = if r == 0 { r + dr } else { r - dr };
+        let f2 = if f == 0 { f + df } else { f - df };
+        r2 * 8 + f2
+    };
+    let mut put = |sq: &mut [u8; 64], s: usize, pc: u8| -> bool {
+        if sq[s] != 0 {
+            return false;
+        }
+        sq[s] = pc;
+        true
+    };
+    let minors = [oracle::N, oracle::B];
+    if rng.chance(1, 2) {
+        // pawn on its 7th rank + king + 0-1 piece vs king + 0-1 piece
+        let dk = if rng.chance(2, 3) { corner_zone(rng) } else { rng.below(64) as usize };
+        put(&mut sq, dk, oracle::K | (def << 3));
+        let file = rng.below(8) as usize;
+        let ps = if att == 0 { 6 * 8 + file } else { 8 + file };
+        if !put(&mut sq, ps, oracle::P | (att << 3)) {
+            return None;
+        }
+        for _ in 0..20 {
+            if put(&mut sq, rng.below(64) as usize, oracle::K | (att << 3)) {
+                break;
+            }
+        }
+        if rng.chance(2, 3) {
+            let k = *rng.pick(&[oracle::N, oracle::B, oracle::R, oracle::Q]);
+            let _ = put(&mut sq, rng.below(64) as usize, k | (att << 3));
+        }
+        if rng.chance(2, 3) {
+            let k = *rng.pick(&[oracle::N, oracle::B, oracle::R, oracle::Q, oracle::P]);
+            let s = rng.below(64) as usize;
+            if !(k == oracle::P && (s < 8 || s >= 56)) {
+                let _ = put(&mut sq, s, k | (def << 3));
+            }
+        }
+    } else {
+        // K + minor vs K + minor (or two minors vs one), defending king in or next to a corner
+        let dk = corner_zone(rng);
+        put(&mut sq, dk, oracle::K | (def << 3));
+        // the attacking king close by
+        for _ in 0..30 {
+            let s = rng.below(64) as usize;
+            let d = ((s / 8) as i32 - (dk / 8) as i32).abs().max(((s % 8) as i32 - (dk % 8) as i32).abs());
+            if (2..=3).contains(&d) && put(&mut sq, s, oracle::K | (att << 3)) {
+                break;
+            }
+        }
+        let _ = put(&mut sq, rng.below(64) as usize, *rng.pick(&minors) | (att << 3));
+        if rng.chance(1, 3) {
+            let _ = put(&mut sq, rng.below(64) as usize, *rng.pick(&minors) | (att << 3));
+        }
+        // the defender's own piece next to its king (the self-block that makes the mate possible)
+        for _ in 0..20 {
+            let s = rng.below(64) as usize;
+            let d = ((s / 8) as i32 - (dk / 8) as i32).abs().max(((s % 8) as i32 - (dk % 8) as i32).abs());
+            if d == 1 && put(&mut sq, s, *rng.pick(&minors) | (def << 3)) {
+                break;
+            }
+        }
+    }
+    let p = Pos {
+        sq,
+        stm: rng.below(2) as u8,
+        castle: 0,
+        ep: -1,
+        half: rng.below(5) as u32,
+        full: 1 + rng.below(60) as u32,
+    };
+    if p.is_sane() && !p.legal_moves().is_empty() {
+        Some(p)
+    } else {
+        None
+    }
+}
+
 fn random_tactical(rng: &mut Rng) -> Option<Pos> {
+    if rng.chance(1, 4) {
+        return random_special(rng);
+    }
     let mut sq = [0u8; 64];
     let att = rng.below(2) as u8; // the side with the attack
     let def = att ^ 1;
